@@ -180,7 +180,7 @@ Wait ==
         /\ script' = [script EXCEPT !.steps = Append(@, [kind |-> "silence", dt |-> Cfg.poll])]
         /\ pc' = "reg_poll" /\ ret' = <<"looptest">> \o ret
         /\ UNCHANGED <<L, inq, fk, obs>>
-     \/ \E dt \in Dts :           \* nothing arrives: time-out
+     \/ \E dt \in {Cfg.poll} :     \* nothing arrives: the selector times out after the poll interval
         /\ E.nIdle < MaxIdle /\ dt > 0
         /\ E' = [E EXCEPT !.clock = @ + dt, !.nIdle = @ + 1]
         /\ script' = [script EXCEPT !.steps = Append(@, [kind |-> "timeout", dt |-> dt])]
